@@ -59,6 +59,9 @@ impl Tour {
         &&& (p == self.len() || self.network.reach(last, self.nodes@[p]))
         &&& forall|q: int| 0 <= q < p ==> !self.network.reach(last, #[trigger] self.nodes@[q])
     }
+    pub open spec fn has_node(&self, x: NodeIdx) -> bool { exists|i: int| 0 <= i < self.len() && #[trigger] self.nodes@[i] == x }
+    /// the position of a node of the tour (nodes are pairwise distinct, see lemma_index_of)
+    pub open spec fn index_of(&self, x: NodeIdx) -> int { choose|i: int| 0 <= i < self.len() && #[trigger] self.nodes@[i] == x }
     pub open spec fn pre(&self, s: int) -> Seq<NodeIdx> { self.nodes@.subrange(0, s) }
     pub open spec fn mid(&self, s: int, e: int) -> Seq<NodeIdx> { if s <= e { self.nodes@.subrange(s, e) } else { Seq::empty() } }
     pub open spec fn suf(&self, e: int) -> Seq<NodeIdx> { self.nodes@.subrange(e, self.len()) }
@@ -173,5 +176,37 @@ pub proof fn lemma_member_start_pos(t: &Tour, x: NodeIdx, i: int, p: int)
     }
     if p > i {
         lemma_member_not_reached_from_later(t, i, p - 1);
+    }
+}
+
+/// the nodes of a well-formed tour are pairwise distinct
+pub proof fn lemma_tour_distinct(t: &Tour, i: int, j: int)
+    requires t.wf(), 0 <= i < t.len(), 0 <= j < t.len(), t.nodes@[i] == t.nodes@[j],
+    ensures i == j,
+{
+    if i < j {
+        assert(t.network.reach(t.nodes@[j - 1], t.nodes@[(j - 1) + 1]));
+        lemma_member_not_reached_from_later(t, i, j - 1);
+    }
+    if j < i {
+        assert(t.network.reach(t.nodes@[i - 1], t.nodes@[(i - 1) + 1]));
+        lemma_member_not_reached_from_later(t, j, i - 1);
+    }
+}
+
+pub proof fn lemma_index_of(t: &Tour, x: NodeIdx, p: int)
+    requires t.wf(), 0 <= p < t.len(), t.nodes@[p] == x,
+    ensures t.has_node(x), t.index_of(x) == p,
+{
+    let i = t.index_of(x);
+    lemma_tour_distinct(t, i, p);
+}
+pub proof fn lemma_not_has_node(t: &Tour, x: NodeIdx)
+    requires !t.nodes@.contains(x),
+    ensures !t.has_node(x),
+{
+    if t.has_node(x) {
+        let i = choose|i: int| 0 <= i < t.len() && #[trigger] t.nodes@[i] == x;
+        assert(t.nodes@.contains(x));
     }
 }
